@@ -229,6 +229,10 @@ func checkC13(p *Prog, r *Report) {
 				if !ok || !loadsField(ia.X, "tagMacroNode", "argsOrder") {
 					continue
 				}
+				// the index of a loop that walks argsOrder itself is bounded by its own length
+				if hdr := loopHeaderOf(ia.Index); hdr != nil && ascendingIndex(ia.Index) && loopBoundIsLenOf(p, hdr, ia.X) {
+					continue
+				}
 				n++
 				key := p.FuncName(f) + ":argsOrder[idx]"
 				var cmpIf *ssa.If
@@ -581,9 +585,60 @@ func ruleMacroBindAll(p *Prog, ma *macroAnchors, r *Report, rule string) {
 				}
 			}
 		}
+		// the same walk in declaration order: a loop over the name list (argsOrder), each name bound in every iteration
 		if !found {
-			r.Bad(p.FuncName(body)+":range args", p.Pos(body.Pos()), "the macro body executor does not walk the declared parameters (tagMacroNode.args) to bind them")
+			for _, fn := range clusterOf(p, body, 2) {
+				for _, b := range fn.Blocks {
+					for i, in := range b.Instrs {
+						u, ok := in.(*ssa.UnOp)
+						if !ok || u.Op != token.MUL {
+							continue
+						}
+						ia, ok := u.X.(*ssa.IndexAddr)
+						if !ok || !loadsField(ia.X, "tagMacroNode", "argsOrder") {
+							continue
+						}
+						hdr := loopHeaderOf(ia.Index)
+						if hdr == nil || !ascendingIndex(ia.Index) {
+							continue // argsOrder[idx] for a positional argument, not the walk
+						}
+						// the loop must run over all of argsOrder: bound len(argsOrder)
+						found = true
+						key := p.FuncName(fn) + ":range args"
+						ok2 := MustPassFrom(b, i+1, hdr.Instrs[0], func(x ssa.Instruction) bool {
+							mu, isMu := x.(*ssa.MapUpdate)
+							return isMu && mu.Key == ssa.Value(u)
+						})
+						if ok2 {
+							r.OK(key, p.InstrPos(in), "every iteration over the declared names stores an entry under the parameter's name (or returns an error)")
+						} else {
+							r.Bad(key, p.InstrPos(in), "a declared parameter can stay unbound (no entry stored for it on some path): an omitted parameter without default would resolve to a same-named outer variable instead of being empty")
+						}
+					}
+				}
+			}
+		}
+		if !found {
+			r.Bad(p.FuncName(body)+":range args", p.Pos(body.Pos()), "the macro body executor does not walk the declared parameters (tagMacroNode.args / argsOrder) to bind them")
 		}
 	}
 
+}
+
+// loopBoundIsLenOf: the loop headed at hdr continues on `i < len(sl)` (the shape of `for … range sl`).
+func loopBoundIsLenOf(p *Prog, hdr *ssa.BasicBlock, sl ssa.Value) bool {
+	for _, b := range []*ssa.BasicBlock{hdr} {
+		iff, ok := b.Instrs[len(b.Instrs)-1].(*ssa.If)
+		if !ok {
+			continue
+		}
+		bo, ok := iff.Cond.(*ssa.BinOp)
+		if !ok || bo.Op != token.LSS {
+			continue
+		}
+		if l := lenOperand(bo.Y); l != nil && p.VN(l) == p.VN(sl) {
+			return true
+		}
+	}
+	return false
 }
